@@ -71,3 +71,124 @@ where
         }
     })
 }
+
+// ---- a clock the harness can own -------------------------------------------------------------
+// `target_arch::sleep` resolves to `sleep` below when the feature is on. While a virtual clock is
+// installed on the calling thread a sleep ends when the harness has moved that clock past its
+// deadline; otherwise it is `tokio::time::sleep`.
+
+pub struct SleepState {
+    done: std::sync::atomic::AtomicBool,
+    waker: std::sync::Mutex<Option<std::task::Waker>>,
+}
+
+struct VirtualClock {
+    now: std::time::Duration,
+    sleepers: Vec<(std::time::Duration, std::sync::Arc<SleepState>)>,
+}
+
+thread_local! {
+    static CLOCK: RefCell<Option<VirtualClock>> = const { RefCell::new(None) };
+}
+
+/// From now on, sleeps started on this thread wait for `advance_virtual_clock`.
+pub fn install_virtual_clock() {
+    CLOCK.with(|c| {
+        *c.borrow_mut() = Some(VirtualClock {
+            now: std::time::Duration::ZERO,
+            sleepers: Vec::new(),
+        })
+    });
+}
+
+/// Back to real sleeps on this thread. Sleeps still pending on the virtual clock never end.
+pub fn remove_virtual_clock() {
+    CLOCK.with(|c| *c.borrow_mut() = None);
+}
+
+/// Time left for every sleep pending on this thread's virtual clock.
+pub fn virtual_sleepers() -> Vec<std::time::Duration> {
+    CLOCK.with(|c| {
+        c.borrow()
+            .as_ref()
+            .map(|c| {
+                c.sleepers
+                    .iter()
+                    .map(|(deadline, _)| deadline.saturating_sub(c.now))
+                    .collect()
+            })
+            .unwrap_or_default()
+    })
+}
+
+/// Move this thread's virtual clock forward; returns how many sleeps ended.
+pub fn advance_virtual_clock(by: std::time::Duration) -> usize {
+    let due: Vec<std::sync::Arc<SleepState>> = CLOCK.with(|c| {
+        let mut guard = c.borrow_mut();
+        let Some(clock) = guard.as_mut() else {
+            return Vec::new();
+        };
+        clock.now += by;
+        let now = clock.now;
+        let (due, pending): (Vec<_>, Vec<_>) = std::mem::take(&mut clock.sleepers)
+            .into_iter()
+            .partition(|(deadline, _)| *deadline <= now);
+        clock.sleepers = pending;
+        due.into_iter().map(|(_, state)| state).collect()
+    });
+    for state in &due {
+        state.done.store(true, std::sync::atomic::Ordering::SeqCst);
+        if let Some(waker) = state.waker.lock().ok().and_then(|mut w| w.take()) {
+            waker.wake();
+        }
+    }
+    due.len()
+}
+
+/// What `sleep` returns: a real tokio sleep, or one that waits for the virtual clock.
+pub enum VerifSleep {
+    Real(Pin<Box<tokio::time::Sleep>>),
+    Virtual(std::sync::Arc<SleepState>),
+}
+
+impl Future for VerifSleep {
+    type Output = ();
+    fn poll(self: Pin<&mut Self>, cx: &mut std::task::Context<'_>) -> std::task::Poll<()> {
+        match self.get_mut() {
+            VerifSleep::Real(sleep) => sleep.as_mut().poll(cx),
+            VerifSleep::Virtual(state) => {
+                if state.done.load(std::sync::atomic::Ordering::SeqCst) {
+                    return std::task::Poll::Ready(());
+                }
+                if let Ok(mut waker) = state.waker.lock() {
+                    *waker = Some(cx.waker().clone());
+                }
+                if state.done.load(std::sync::atomic::Ordering::SeqCst) {
+                    std::task::Poll::Ready(())
+                } else {
+                    std::task::Poll::Pending
+                }
+            }
+        }
+    }
+}
+
+/// Drop-in for `tokio::time::sleep`.
+pub fn sleep(duration: std::time::Duration) -> VerifSleep {
+    let virtual_state = CLOCK.with(|c| {
+        c.borrow_mut().as_mut().map(|clock| {
+            let state = std::sync::Arc::new(SleepState {
+                done: std::sync::atomic::AtomicBool::new(duration.is_zero()),
+                waker: std::sync::Mutex::new(None),
+            });
+            if !duration.is_zero() {
+                clock.sleepers.push((clock.now + duration, state.clone()));
+            }
+            state
+        })
+    });
+    match virtual_state {
+        Some(state) => VerifSleep::Virtual(state),
+        None => VerifSleep::Real(Box::pin(tokio::time::sleep(duration))),
+    }
+}
